@@ -91,7 +91,7 @@ def rule_bool_total(ctx: Ctx, rep: Report, rule: str, quals: list[str]) -> None:
                 rep.ob(rule, f"{q}:handler_false", ok, fi.where(h), "the handler returns False")
 
 
-def rule_config_forwarded(ctx: Ctx, rep: Report, rule: str, cls_qual: str, fields: dict[str, str], floor: int) -> None:
+def rule_config_forwarded(ctx: Ctx, rep: Report, rule: str, cls_qual: str, fields: dict[str, str], floor: int, fallback_pkg: str | None = None) -> None:
     """A signer object holds the curve and the hash function it was built
     with (`self._ec`, `self._hf`); every call it makes to a btclib function
     that has a parameter of that meaning (`ec`, `hf`) hands its own over --
@@ -108,11 +108,18 @@ def rule_config_forwarded(ctx: Ctx, rep: Report, rule: str, cls_qual: str, field
                 continue
             q = ctx.resolve_call(fi, c)
             callee = ctx.prog.functions.get(q or "")
-            if callee is None and isinstance(c.func, ast.Attribute):
-                # a method on a receiver the resolver cannot type: judged when every definition of that name agrees on the parameter
-                cands = [f for f in ctx.prog.functions.values() if f.cls is not None and f.qualname.rsplit(".", 1)[1] == c.func.attr]
-                if cands and all(any(p in f.params() for p in fields.values()) for f in cands) and len({tuple(f.params()) for f in cands}) == 1:
-                    callee = cands[0]
+            if callee is None and isinstance(c.func, ast.Attribute) and not (isinstance(c.func.value, ast.Name) and c.func.value.id == "self"):
+                # a method on a receiver the resolver cannot type: judged when every definition of that
+                # name in the receiver's package takes the parameter -- then some argument must be the field
+                pkg = ci.qualname.rsplit(".", 3)[0] if fallback_pkg is None else fallback_pkg
+                cands = [f for f in ctx.prog.functions.values() if f.cls is not None and f.qualname.startswith(pkg + ".") and f.qualname.rsplit(".", 1)[1] == c.func.attr]
+                for fld, pname in fields.items():
+                    if cands and all(pname in f.params() for f in cands):
+                        n += 1
+                        okk = any(norm(a) == f"self.{fld}" for a in c.args) or any(k.arg == pname and norm(k.value) == f"self.{fld}" for k in c.keywords)
+                        rep.ob(rule, f"{ci.name}.{mname}->{c.func.attr}({pname})@{c.lineno - fi.node.lineno}", okk, fi.where(c),
+                               f"hands over self.{fld}" if okk else f"`{pname}` is not handed over: the callee's default stands in for the object's own {fld}")
+                continue
             if callee is None or callee.cls is ci:
                 continue
             ps = callee.params()
